@@ -142,6 +142,36 @@ theorem refit_first (k : Kind) (c : Call) (h : c.alreadyFitted = true) :
     fitGuards k c = .assertion "already fitted" := by
   simp [fitGuards, guards, firstFailing, h]
 
+/-- **Which guard answers**: the AssertionError is the one of the first guard that fires — whatever the guards after it
+    would have said (this is what the correspondence compares with the message of the real exception, also for calls
+    malformed in two ways at once). -/
+theorem firstFailing_append (l1 l2 : List (Bool × String)) (m : String) (h : ∀ g ∈ l1, g.1 = false) :
+    firstFailing (l1 ++ (true, m) :: l2) = .assertion m := by
+  induction l1 with
+  | nil => simp [firstFailing]
+  | cons g t ih =>
+    obtain ⟨b, m'⟩ := g
+    have hb : b = false := h (b, m') (List.mem_cons_self ..)
+    subst hb
+    simp only [List.cons_append, firstFailing]
+    exact ih (fun g hg => h g (List.mem_cons_of_mem _ hg))
+
+/-- on an object that is not fitted yet, an `X` that is not a DataFrame is what the call is refused for, whatever `y` is -/
+theorem x_not_frame_first (k : Kind) (c : Call) (h1 : c.alreadyFitted = false) (h2 : c.xIsFrame = false) :
+    fitGuards k c = .assertion "X must be a pandas.DataFrame" := by
+  simp [fitGuards, guards, firstFailing, h1, h2]
+
+/-- a missing column of `X` is reported before anything about the target -/
+theorem missing_columns_before_target (k : Kind) (c : Call) (h1 : c.alreadyFitted = false) (h2 : c.xIsFrame = true)
+    (h3 : c.missingColumns = true) : fitGuards k c = .assertion "columns are missing" := by
+  simp [fitGuards, guards, firstFailing, h1, h2, h3]
+
+/-- the target is validated (Series, no missing value, aligned) before the dev sample and before the values of the features -/
+theorem target_before_features (k : Kind) (c : Call) (h1 : c.alreadyFitted = false) (h2 : c.xIsFrame = true)
+    (h3 : c.missingColumns = false) (h4 : c.yIsSeries = true) (h5 : c.yHasNaN = true) :
+    fitGuards k c = .assertion "y should not contain numpy.nan" := by
+  simp [fitGuards, guards, firstFailing, h1, h2, h3, h4, h5]
+
 /-! ## Non-vacuity -/
 private def ok : Call := ⟨false, true, false, true, false, true, true, false, true, false, true, 2, true, false, false, false⟩
 example : fitGuards .binaryCarver ok = .accepted := by decide
